@@ -2,17 +2,75 @@ package rules
 
 import "verif/sa/core"
 
+// scope helpers ---------------------------------------------------------------
+
+// parseScope: everything reachable from the parser's API and its goroutine
+// roots (the lexer calls into printer and ast).
+func (c *Ctx) parseScope() (scope, fatal map[*core.Func]bool) {
+	cg := c.P.CG()
+	var roots []*core.Func
+	roots = append(roots, c.roots("parser.ParseCommands", "parser.ParseCommand")...)
+	fatalRoots := []*core.Func{}
+	for _, g := range c.goRoots() {
+		if g.Target.Pkg.Name == "parser" {
+			fatalRoots = append(fatalRoots, g.Target)
+		}
+	}
+	scope = cg.Reachable(append(roots, fatalRoots...)...)
+	fatal = cg.Reachable(fatalRoots...)
+	return
+}
+
+// downstreamScope: everything reachable from the exported entry points of
+// printer, ast, interp and pattern.
+func (c *Ctx) downstreamScope() map[*core.Func]bool {
+	cg := c.P.CG()
+	roots := c.roots("printer.Fprint", "printer.(*Config).Fprint",
+		"interp.(*ExecEnv).Expand", "interp.(*ExecEnv).Eval", "interp.(*ExecEnv).Get", "interp.(*ExecEnv).Set",
+		"interp.(*ExecEnv).Unset", "interp.(*ExecEnv).Walk", "interp.NewExecEnv", "interp.Option.String",
+		"interp.ArithExprError.Error", "interp.ParamExpError.Error",
+		"pattern.Match", "pattern.Glob")
+	roots = append(roots, c.methodsNamed("ast", "Pos", "End")...)
+	for _, g := range c.goRoots() {
+		if g.Target.Pkg.Name == "interp" {
+			roots = append(roots, g.Target)
+		}
+	}
+	return cg.Reachable(roots...)
+}
+
+func (c *Ctx) scopeOf(names ...string) map[*core.Func]bool {
+	return c.P.CG().Reachable(c.roots(names...)...)
+}
+
+func pf1Rule(doc string, floor int, scope func(c *Ctx) (map[*core.Func]bool, map[*core.Func]bool)) Rule {
+	return Rule{ID: "PF1", Kind: "must-not", Floor: floor, Doc: doc, Run: func(c *Ctx, rr *core.RuleResult) {
+		s, fatal := scope(c)
+		runPF1(c, rr, s, fatal)
+	}}
+}
+
 // Props returns the property table.
 func Props(c *Ctx) map[string]*Prop {
 	m := map[string]*Prop{}
 	add := func(p *Prop) { m[p.ID] = p }
-	add(&Prop{ID: "DEV", Explanation: "development: PF1 over everything",
-		Rules: []Rule{{ID: "PF1", Kind: "must-not", Doc: "panic obligations", Run: func(c *Ctx, rr *core.RuleResult) {
-			scope := map[*core.Func]bool{}
-			for _, f := range c.P.Funcs {
-				scope[f] = true
-			}
-			runPF1(c, rr, scope, nil)
-		}}}})
+
+	add(&Prop{ID: "C01",
+		Explanation: "Decides the crash and hang side conditions of totality for every path of the current source: every index, slice, type-assertion and division site reachable from ParseCommand(s) and from the lexer goroutines is proved safe by a forward difference-constraint analysis over go/cfg, by a named invariant whose producer is checked, or by a listed reasoned exception (PF1); bail-out panics are typed and not re-panicked for either panicnil setting (PF4); sealed type switches are exhaustive (PF3); goroutine roots always close their channels (CC1). It does not decide wall-clock bounds or termination of the lexer's state machine as a whole.",
+		Assumptions: []string{"the goyacc driver template is trusted as generator output", "analysed build configuration: linux/amd64"},
+		Rules: []Rule{
+			pf1Rule("no index, slice, type-assertion or division site reachable from ParseCommand(s) or a lexer goroutine can panic", 80,
+				func(c *Ctx) (map[*core.Func]bool, map[*core.Func]bool) { return c.parseScope() }),
+			rulePF2(), rulePF3("parser", "printer", "ast"), rulePF4("parser"), ruleYY1("parser"), ruleLAST1(), ruleCC1("parser"),
+		}})
+
+	add(&Prop{ID: "C19",
+		Explanation: "Decides panic freedom of every exported downstream entry point (Fprint, Pos/End, Expand, Eval, Get/Set/Unset/Walk, Option.String, Match, Glob) for every path of the current source, with the AST shape facts they rely on checked on the producer side.",
+		Assumptions: []string{"ExecEnv values are built by NewExecEnv (len(Args) >= 1, non-nil maps)", "Config.Width >= 0", "regexp (RE2) terminates", "analysed build configuration: linux/amd64"},
+		Rules: []Rule{
+			pf1Rule("no index, slice, type-assertion or division site reachable from a downstream entry point can panic", 100,
+				func(c *Ctx) (map[*core.Func]bool, map[*core.Func]bool) { return c.downstreamScope(), nil }),
+			rulePF2(), rulePF3("printer", "interp", "ast", "pattern"), rulePF4("interp"), rulePF5(), ruleYY1("interp"), ruleEF7(), ruleFLD1(), ruleFLD2(), ruleCC1("interp"),
+		}})
 	return m
 }
